@@ -34,4 +34,15 @@ Bind(sig, call) == IF Errors(sig, call) = {} THEN [r |-> "ok", env |-> Env(sig, 
 \* laws: the environment holds exactly the declared parameters; everything supplied is accounted for
 ExactlyDeclared(sig, call) == DOMAIN Env(sig, call).params = Names(sig)
 NothingLost(sig, call) == Errors(sig, call) = {} => Supplied(call) \subseteq (Names(sig) \cup Env(sig, call).rest)
+\* ---- priority among several definitions of one component.  Definitions are listed in the lexicographic order of their
+\* template names (the order in which registration walks them); v[i] is -1 (absent), 0 (a template name without a
+\* fallback prefix: best priority) or a rank 1, 2, 3 (position of its prefix in the list of fallback prefixes).
+\* The highest-priority definition is used; two definitions of the best priority present are a conflict.
+Ranks == {1, 2, 3}
+Present(v) == {i \in DOMAIN v : v[i] # -1}
+Exact(v) == {i \in DOMAIN v : v[i] = 0}
+PrioOutcome(v) ==
+  IF Cardinality(Exact(v)) >= 2 THEN [r |-> "conflict", owner |-> 0]
+  ELSE [r |-> "ok", owner |-> CHOOSE i \in Present(v) : \A j \in Present(v) : v[i] <= v[j]]
+PrioVectors == {v \in [1..3 -> -1..3] : Present(v) # {} /\ \A i, j \in Present(v) : (i # j /\ v[i] \in Ranks) => v[i] # v[j]}
 =============================================================================
